@@ -106,6 +106,76 @@ func (ts *TypeSwitch) CaseBlock(name string) *ssa.BasicBlock {
 	return nil
 }
 
+// CaseBody is the code that handles one case of a type switch: normally the
+// region of the switch's function dominated by the case block, with E the
+// value bound in the case. When that region does nothing but hand E to a
+// function of the same package (the arm was extracted into a helper,
+// `case T: return handleT(e)`), the body is the helper: all of its blocks,
+// with the parameter that receives E in E's place.
+type CaseBody struct {
+	Fn        *ssa.Function
+	Region    map[*ssa.BasicBlock]bool
+	E         ssa.Value
+	Entry     *ssa.BasicBlock
+	Extracted bool      // the body is a helper function
+	Call      *ssa.Call // the call that hands E to the helper (Extracted only)
+}
+
+// Blocks lists the body's blocks in function order.
+func (cb *CaseBody) Blocks() []*ssa.BasicBlock {
+	var out []*ssa.BasicBlock
+	for _, b := range cb.Fn.Blocks {
+		if cb.Region[b] {
+			out = append(out, b)
+		}
+	}
+	return out
+}
+
+// CaseBody returns the body of the case for the named type (nil if the switch
+// has no such case or binds no value).
+func (ts *TypeSwitch) CaseBody(name string) *CaseBody {
+	e, cb := ts.CaseValue(name), ts.CaseBlock(name)
+	if e == nil || cb == nil {
+		return nil
+	}
+	body := &CaseBody{Fn: ts.Fn, Region: RegionOf(cb), E: e, Entry: cb}
+	// extracted arm?
+	var only *ssa.Call
+	idx := -1
+	n := 0
+	for _, b := range body.Blocks() {
+		for _, in := range b.Instrs {
+			call, ok := in.(*ssa.Call)
+			if !ok {
+				continue
+			}
+			if _, isBi := call.Call.Value.(*ssa.Builtin); isBi {
+				continue
+			}
+			n++
+			g := call.Call.StaticCallee()
+			if g == nil || g.Blocks == nil || g == ts.Fn || pkgPathOf(g) != pkgPathOf(ts.Fn) {
+				continue
+			}
+			for i, a := range call.Call.Args {
+				if Unwrap(a) == e && i < len(g.Params) {
+					only, idx = call, i
+				}
+			}
+		}
+	}
+	if only != nil && n == 1 {
+		g := only.Call.StaticCallee()
+		region := map[*ssa.BasicBlock]bool{}
+		for _, b := range g.Blocks {
+			region[b] = true
+		}
+		return &CaseBody{Fn: g, Region: region, E: g.Params[idx], Entry: g.Blocks[0], Extracted: true, Call: only}
+	}
+	return body
+}
+
 // TypeSwitches finds, in fn, the groups of comma-ok type assertions from an
 // interface value of static type iface (a sealed interface of pkg/expr) to
 // concrete implementers. Groups with fewer than two asserted types are
